@@ -100,7 +100,7 @@ def analyse(case, res):
     if res.virtual_elapsed > 2.0 * n_remote + 5.0:
         fails.append(Failure("C14.slow", f"C14.slow|{shape}",
                              f"run() took {res.virtual_elapsed:.2f} virtual seconds to terminate"))
-    nontrivial = f["req"] >= 1 and bool(others)
+    nontrivial = (f["req"] == "finalize" or f["req"] >= 1) and bool(others)
     return fails, nontrivial, [f"kind.{kind}", f"transport.{transport[sid]}", f"at.{res.fault_fired[3]}",
                                "shutdown." + case.get("schedule", {}).get("shutdown", "release")]
 
@@ -324,6 +324,15 @@ def shard(prop, tier, seed, shard, nshards):
         for sm in scn["sims"]:
             # close_after: the process dies *between* two requests (the request is answered, then the connection closes)
             kinds = LOCAL_KINDS if sm.get("transport") != "mem" else ["raise", "close", "reset", "close_after"]
+            if sm.get("transport") != "mem":
+                # the very last point of a run: an in-process simulator raises in its finalize()
+                i += 1
+                if i % nshards == shard and not acc.out_of_time():
+                    case = {"scenario": scn, "schedule": dict(SCHEDULES[0], shutdown="release"),
+                            "faults": [{"sim": sm["sid"], "req": "finalize", "kind": "raise"}]}
+                    for f in check_case(case, acc):
+                        if len(acc.failures) < 30:
+                            acc.failures.append(f)
             for req in range(counts.get(sm["sid"], 0)):
                 for kind in kinds:
                     for sched in (SCHEDULES if tier == "thorough" else SCHEDULES[:2]):
